@@ -318,9 +318,10 @@ def check(ctx):
     o = Ob('C15.4', 'K2+K3', 'trace: run() stores the flag; step() records the event before executing it when tracing; the record goes under a running index '
                              'incremented once; run() exports the trace in a finally block; the export dumps the trace')
     obs.append(o)
-    OP = ('step', 'schedule_event', '_trace_event', '_export_trace')
-    g = ctx.graph(Env, 'step', opaque=OP)
+    OP = ('step', 'schedule_event')
+    g = ctx.graph(Env, 'step', opaque=OP)          # the recording helper, if there is one, is inlined: the rule is about what a step does
     from .c01 import HEAD_REMOVE_FUNCS
+    NE = Normalizer(P, Env)
 
     def is_head_removal(c):
         return (call_attr(c) == 'pop' and isinstance(c.func, ast.Attribute) and ast.unparse(c.func.value) == 'self._events' and len(c.args) == 1
@@ -334,14 +335,35 @@ def check(ctx):
 
     def th(an_, n, before, after):
         st = after
+        a = n.ast
         for c in calls_at(g, n):
-            if call_attr(c) == '_trace_event' and is_self_attr(c.func):
-                good = len(c.args) == 1 and an_.ev(c.args[0], before, n.frame) == 'head'
-                st = st.with_flag('traced-twice' if 'traced' in st.flags else ('traced' if good else 'traced-other'))
-                if 'executed' in st.flags:
-                    st = st.with_flag('traced-after-execute')
             if call_attr(c) == 'execute' and isinstance(c.func, ast.Attribute) and an_.ev(c.func.value, before, n.frame) == 'head':
                 st = st.with_flag('executed')
+        if n.kind == 'stmt' and isinstance(a, (ast.Assign, ast.AugAssign)):
+            tg = a.targets if isinstance(a, ast.Assign) else [a.target]
+            env_ = FrameEnv(n.frame)
+            for t in tg:
+                if isinstance(t, ast.Subscript) and is_self_attr(t.value, '_event_trace') and isinstance(a, ast.Assign):
+                    key_ok = NE.norm(t.slice, env_).is_({'self._event_index': 1})
+                    v = subst(a.value, env_)
+                    # the record is a dict built from the event taken from the head of the queue
+                    mentions_head = any(isinstance(x, ast.Name) and an_.ev(x, before, n.frame) == 'head' for x in ast.walk(a.value)) or \
+                        any(isinstance(x, ast.Call) and is_head_removal(x) for x in ast.walk(v))
+                    if not mentions_head and isinstance(a.value, ast.Name):
+                        r_ = env_.resolve(a.value.id)
+                        if r_ is not None:
+                            fr_ = r_[1].frame if isinstance(r_[1], FrameEnv) and getattr(r_[1], 'frame', None) is not None else n.frame
+                            mentions_head = any(isinstance(x, ast.Name) and an_.ev(x, before, fr_) == 'head' for x in ast.walk(r_[0]))
+                    val_ok = isinstance(v, ast.Dict) and mentions_head
+                    fl = 'stored' if key_ok and val_ok else 'stored-wrong'
+                    if 'advanced' in st.flags:
+                        fl = 'stored-after-advance'
+                    if 'executed' in st.flags:
+                        fl = 'stored-after-execute'
+                    st = st.with_flag('stored-twice' if 'stored' in st.flags else fl)
+                if is_self_attr(t, '_event_index'):
+                    newv = NE.norm(ast.BinOp(left=a.target, op=a.op, right=a.value) if isinstance(a, ast.AugAssign) else a.value, env_)
+                    st = st.with_flag(('advanced-twice' if 'advanced' in st.flags else 'advanced') if newv.is_({'self._event_index': 1}, 1) else 'index-wrong')
         return st
     an = Analysis(P, g, ['_trace'])
     an.expr_hooks.append(head_expr)
@@ -352,71 +374,43 @@ def check(ctx):
         o.require(res.exits(), 'Environment.step has no normal exit')
         for st in res.exits():
             o.count()
-            fl = {f for f in st.flags if f.startswith(('traced', 'executed'))}
-            want = {'traced', 'executed'} if tv == 'T' else {'executed'}
+            fl = {f for f in st.flags if f.startswith(('stored', 'advanced', 'index', 'executed'))}
+            want = {'stored', 'advanced', 'executed'} if tv == 'T' else {'executed'}
             if fl != want:
-                o.fail(P, 'Environment.step', 'if self._trace: self._trace_event(next_event)',
-                       f'with tracing {"enabled" if tv == "T" else "disabled"} a step does {sorted(fl)}; expected {sorted(want)} (every executed event is recorded once, before it is executed; none without tracing)',
+                o.fail(P, 'Environment.step', 'if self._trace: self._event_trace[self._event_index] = {...}; self._event_index += 1',
+                       f'with tracing {"enabled" if tv == "T" else "disabled"} a step does {sorted(fl)}; expected {sorted(want)} (every executed event is recorded once under the '
+                       'running index, which is then advanced by one, before the event is executed; nothing without tracing)',
                        file=Env.mod.path, line=stepfn.lineno, path=res.path_lines(g.exit, st))
             else:
                 o.witness(('step-trace', tv))
-    fn = P.method(Env, '_trace_event')[1]
-    ev = fn.args.args[1].arg
-    gt = ctx.graph(Env, '_trace_event')
-    NE = Normalizer(P, Env)
-    tdefs = single_defs(fn)
-
-    def trace_hook(an_, n, before, after):
-        st = after
-        a = n.ast
-        if n.kind == 'stmt' and isinstance(a, (ast.Assign, ast.AugAssign)):
-            tg = a.targets if isinstance(a, ast.Assign) else [a.target]
-            for t in tg:
-                if isinstance(t, ast.Subscript) and is_self_attr(t.value, '_event_trace') and isinstance(a, ast.Assign):
-                    key_ok = NE.norm(t.slice, tdefs).is_({'self._event_index': 1})
-                    v = a.value
-                    if isinstance(v, ast.Name) and v.id in tdefs:
-                        v = tdefs[v.id]
-                    val_ok = isinstance(v, ast.Dict) and any(isinstance(x, ast.Attribute) and isinstance(x.value, ast.Name) and x.value.id == ev for x in ast.walk(v))
-                    fl = 'stored' if key_ok and val_ok else 'stored-wrong'
-                    if 'advanced' in st.flags:
-                        fl = 'stored-after-advance'
-                    st = st.with_flag('stored-twice' if 'stored' in st.flags else fl)
-                if is_self_attr(t, '_event_index'):
-                    newv = NE.norm(ast.BinOp(left=a.target, op=a.op, right=a.value) if isinstance(a, ast.AugAssign) else a.value, tdefs)
-                    st = st.with_flag(('advanced-twice' if 'advanced' in st.flags else 'advanced') if newv.is_({'self._event_index': 1}, 1) else 'index-wrong')
-        return st
-    ant = Analysis(P, gt, [])
-    ant.node_hooks.append(trace_hook)
-    rest = ctx.explore(ant, [State({})])
-    o.require(rest.exits(), 'Environment._trace_event has no normal exit')
-    for st in rest.exits():
-        o.count()
-        fl = {f for f in st.flags if f.startswith(('stored', 'advanced', 'index'))}
-        if fl != {'stored', 'advanced'}:
-            o.fail(P, 'Environment._trace_event', 'self._event_trace[self._event_index] = {...}; self._event_index += 1',
-                   f'an executed event must be stored under the running index, which is then advanced by one; this path does {sorted(fl)}', file=Env.mod.path, line=fn.lineno,
-                   path=rest.path_lines(gt.exit, st))
-        else:
-            o.witness('index')
+                if tv == 'T':
+                    o.witness('index')
     g = ctx.graph(Env, 'run', opaque=OP)
     fn = P.method(Env, 'run')[1]
     o.count()
     tp = [a.arg for a in fn.args.args][2] if len(fn.args.args) > 2 else 'trace'
     setf = [n for n in g.nodes.values() if n.kind == 'stmt' and isinstance(n.ast, ast.Assign) and any(is_self_attr(t, '_trace') for t in n.ast.targets) and ast.unparse(n.ast.value) == tp]
     steps = [n for n in g.nodes.values() if any(call_attr(c) == 'step' for c in calls_at(g, n))]
-    exports = [n for n in g.nodes.values() if any(call_attr(c) == '_export_trace' for c in calls_at(g, n))]
-    def reaches_call(stmts, name, seen=()):
-        """do these statements call self.<name>(), directly or through helpers of Environment called on self?"""
+
+    def is_dump(x):
+        return isinstance(x, ast.Call) and ast.unparse(x.func) in ('json.dump', 'dump') and x.args and ast.unparse(x.args[0]) == 'self._event_trace'
+    exports = [n for n in g.nodes.values() if any(is_dump(c) for c in calls_at(g, n))]
+
+    def reaches(stmts, pred, seen=()):
+        """do these statements contain a call satisfying pred, directly or through helpers of Environment called on self?"""
         for s_ in stmts:
             for x in ast.walk(s_):
+                if isinstance(x, ast.Call) and pred(x):
+                    return True
                 if isinstance(x, ast.Call) and isinstance(x.func, ast.Attribute) and is_self_attr(x.func):
-                    if x.func.attr == name:
-                        return True
                     hit = P.lookup(Env, x.func.attr)
-                    if hit and hit[1] == 'method' and x.func.attr not in seen and reaches_call(hit[2].body, name, seen + (x.func.attr,)):
+                    if hit and hit[1] == 'method' and x.func.attr not in seen and reaches(hit[2].body, pred, seen + (x.func.attr,)):
                         return True
         return False
+
+    def is_step(x):
+        return isinstance(x.func, ast.Attribute) and is_self_attr(x.func) and x.func.attr == 'step'
+
     def reachable_funcs(f0, seen=None):
         seen = seen if seen is not None else {}
         seen[f0.name] = f0
@@ -427,7 +421,7 @@ def check(ctx):
                     reachable_funcs(hit[2], seen)
         return seen
     tries = [t for f_ in reachable_funcs(fn).values() for t in ast.walk(f_)
-             if isinstance(t, ast.Try) and t.finalbody and reaches_call(t.finalbody, '_export_trace') and reaches_call(t.body, 'step')]
+             if isinstance(t, ast.Try) and t.finalbody and reaches(t.finalbody, is_dump) and reaches(t.body, is_step)]
     okr = bool(setf) and bool(steps) and bool(exports) and len(tries) == 1 and all(g.dominated_by(s_.id, {setf[0].id}) for s_ in steps)
     if okr:
         an = Analysis(P, g, ['_trace', '_terminated'])
@@ -446,17 +440,12 @@ def check(ctx):
                 if ('exported' in st.flags) != (tv == 'T'):
                     okr = False
     if not okr:
-        o.fail(P, 'Environment.run', 'try: ... finally: if self._trace: self._export_trace()', 'run() must store the trace flag before stepping and export the trace in a finally block exactly when tracing',
-               file=Env.mod.path, line=fn.lineno)
+        o.fail(P, 'Environment.run', 'try: ... finally: if self._trace: json.dump(self._event_trace, ...)', 'run() must store the trace flag before stepping and export the recorded trace '
+               '(json.dump of self._event_trace) in a finally block exactly when tracing', file=Env.mod.path, line=fn.lineno)
     else:
         o.witness('run-export')
-    fn = P.method(Env, '_export_trace')[1]
-    o.count()
-    if not any(isinstance(x, ast.Call) and ast.unparse(x.func) in ('json.dump', 'dump') and x.args and ast.unparse(x.args[0]) == 'self._event_trace' for x in ast.walk(fn)):
-        o.fail(P, 'Environment._export_trace', 'json.dump(self._event_trace, fp)', 'the export does not write the recorded trace', file=Env.mod.path, line=fn.lineno)
-    else:
         o.witness('dump')
-    for a_, owners in (('_event_trace', {'_reset'}), ('_event_index', {'_reset', '_trace_event'}), ('_trace', {'_reset', 'run'})):
+    for a_, owners in (('_event_trace', {'_reset'}), ('_event_index', {'_reset', '_trace_event', 'step'}), ('_trace', {'_reset', 'run'})):
         for s in inv.attr_stores(P, a_):
             o.count()
             if not (s.cls is Env and s.func.name in inv.covered(P, owners)):
